@@ -886,6 +886,8 @@ func postprocessASAACL(c *cmd) {
 func postprocessACLParts(c *cmd, parts []string) {
 	proto := ""
 
+	// Skip n tokens; incomplete command may have less tokens.
+	skip := func(n int) { parts = parts[min(n, len(parts)):] }
 	convNamed := func(m map[string]int) {
 		if len(parts) > 0 {
 			if num, found := m[parts[0]]; found {
@@ -903,17 +905,24 @@ func postprocessACLParts(c *cmd, parts []string) {
 		}
 	}
 	convObjectGroup := func() {
+		if len(parts) < 2 {
+			skip(1)
+			return
+		}
 		name := parts[1]
 		parts[1] = "$REF"
 		c.ref = append(c.ref, name)
 		parts = parts[2:]
 	}
 	convProto := func() {
+		if len(parts) == 0 {
+			return
+		}
 		switch parts[0] {
 		case "object-group":
 			convObjectGroup()
 		case "object":
-			parts = parts[2:]
+			skip(2)
 		default:
 			if name, found := protoNonNumeric[parts[0]]; found {
 				parts[0] = name
@@ -941,7 +950,7 @@ func postprocessACLParts(c *cmd, parts []string) {
 				convNamed(logNames)
 			case "host", "object", "object-group-security", "object-group-user",
 				"security-group", "user", "user-group":
-				parts = parts[2:]
+				skip(2)
 			case "any", "any4", "any6", "interface":
 				parts = parts[1:]
 			default:
